@@ -103,6 +103,7 @@ fn alphabet(n: usize, tier: Tier) -> Vec<Dev> {
             }));
         }
     }
+    d.extend(crate::devs::rich_generic_devs(true));
     d.extend(crate::devs::syntax_devs(true, true, true, false));
     d
 }
@@ -184,7 +185,8 @@ pub fn programs(tier: Tier) -> ProgramSet {
 pub fn render(spec: &EnumSpec) -> String {
     let mut o = String::new();
     o.push_str(&render_enum(spec, &["Debug", "strum::EnumProperty"]));
-    o.push_str("pub fn run(ctx: &mut vf_core::Ctx) {\n    use strum::EnumProperty;\n    let vals: Vec<E> = vec![\n");
+    o.push_str(&format!("type EC = {}{};\n", spec.name, spec.generics_inst()));
+    o.push_str("pub fn run(ctx: &mut vf_core::Ctx) {\n    use strum::EnumProperty;\n    let vals: Vec<EC> = vec![\n");
     for i in 0..spec.variants.len() {
         o.push_str(&format!("        {},\n", render_default_value(spec, i)));
     }
